@@ -157,6 +157,6 @@ func (q Keeper) BeaconStorage(c context.Context, req *types.QueryBeaconStorageRe
 		CurrentLimit:   beaconStorage.InStateLimit,
 		CurrentUsed:    beacon.NumInState,
 		Max:            maxStorageLimit,
-		MaxPurchasable: maxStorageLimit - beaconStorage.InStateLimit,
+		MaxPurchasable: q.GetMaxPurchasableSlots(ctx, req.BeaconId),
 	}, nil
 }
